@@ -1,1 +1,329 @@
-/- C11: property theorems (not yet built). -/
+/- C11 — Stdlib string, encoding, parsing functions match their definitions.
+   Property theorems only (helper lemmas live in Proofs/Str.lean). Strings are lists of code
+   points, byte strings lists of naturals; `Model.*` is the code, `Spec.*` the definition. -/
+import JrsVerif.Proofs.Str
+
+namespace JrsVerif.Str
+
+/-- C11.1  decoding the UTF-8 encoding of any string of scalar values gives the string back
+    (`std.decodeUTF8(std.encodeUTF8(s)) == s`) -/
+theorem utf8_roundtrip (s : List Nat) (hs : AllScalar s) : dec (enc s) = some s :=
+  decF_enc s hs _ (length_le_enc s)
+
+/-- C11.1  whatever the decoder accepts is the encoding of its result, and the result consists of
+    scalar values only (`std.encodeUTF8(std.decodeUTF8(b)) == b` on the decoder's domain) -/
+theorem utf8_decode_sound (bs s : List Nat) (h : dec bs = some s) : enc s = bs ∧ AllScalar s :=
+  decF_sound _ bs s h
+
+/-- C11.1  the strict decoder rejects exactly the byte strings that are not the encoding of a
+    string of scalar values (overlong forms, surrogates, > U+10FFFF, stray/missing continuations) -/
+theorem utf8_decode_rejects_invalid (bs : List Nat) :
+    dec bs = none ↔ ¬ ∃ s, AllScalar s ∧ enc s = bs := by
+  constructor
+  · rintro h ⟨s, hs, rfl⟩
+    rw [utf8_roundtrip s hs] at h; cases h
+  · intro h
+    cases hd : dec bs with
+    | none => rfl
+    | some s => exact absurd ⟨s, (utf8_decode_sound bs s hd).2, (utf8_decode_sound bs s hd).1⟩ h
+
+example : AllScalar [97, 233, 0x2192, 0x1F600] ∧ enc [97, 233, 0x2192, 0x1F600] =
+    [0x61, 0xC3, 0xA9, 0xE2, 0x86, 0x92, 0xF0, 0x9F, 0x98, 0x80] := by
+  refine ⟨by intro c hc; simp at hc; rcases hc with rfl | rfl | rfl | rfl <;> decide, by decide⟩
+example : dec [0xED, 0xA0, 0x80] = none ∧ dec [0xC0, 0xAF] = none ∧ dec [0xF4, 0x90, 0x80, 0x80] = none ∧
+    dec [0xE2, 0x86] = none := by decide
+
+/-- C11.2  the `char_indices` / byte-slice walk of `std.findSubstr` computes the reference
+    definition: all code-point positions where the pattern occurs -/
+theorem findSubstr_spec (pat s : List Nat) : Model.findSubstr pat s = Spec.findSubstr pat s :=
+  findSubstr_model_eq_spec pat s
+
+/-- C11.2  …which are exactly the (possibly overlapping) occurrences, as code-point indices -/
+theorem findSubstr_mem (pat s : List Nat) (i : Nat) :
+    i ∈ Model.findSubstr pat s ↔ pat ≠ [] ∧ i < s.length ∧ pat <+: s.drop i := by
+  rw [findSubstr_spec]; unfold Spec.findSubstr
+  by_cases hp : pat = []
+  · simp [hp]
+  · simp [hp, List.mem_filter, List.mem_range]
+
+/-- C11.2  …listed once each in ascending order -/
+theorem findSubstr_sorted (pat s : List Nat) : (Model.findSubstr pat s).Pairwise (· < ·) := by
+  rw [findSubstr_spec]; unfold Spec.findSubstr
+  split
+  · exact List.Pairwise.nil
+  · exact List.Pairwise.filter _ List.pairwise_lt_range
+
+/-- overlapping occurrences and multi-byte text: "éaéaé" contains "éaé" at code points 0 and 2 -/
+example : Model.findSubstr [233, 97, 233] [233, 97, 233, 97, 233] = [0, 2] := by decide
+
+/-- C11.1  lossy decoding (`std.decodeUTF8(b)` with the default `lossy=true`) changes nothing on
+    valid input -/
+theorem utf8_lossy_valid (bs s : List Nat) (h : dec bs = some s) : decLossy bs = s :=
+  decLossyF_of_decF _ bs s h
+
+/-- C11.2  `std.startsWith(a, b)` on strings compares UTF-8 bytes; that is the code-point prefix
+    test -/
+theorem startsWith_spec (a b : List Nat) : Model.startsWith a b = Spec.startsWith a b := by
+  unfold Model.startsWith Spec.startsWith
+  rw [Bool.eq_iff_iff, List.isPrefixOf_iff_prefix, List.isPrefixOf_iff_prefix]
+  exact enc_prefix_iff b a
+
+/-- C11.3  `std.substr(s, from, len)` is the window of `len` code points starting at code point
+    `from`, cut at the end of the string: element by element… -/
+theorem substr_spec (s : List Nat) (from_ len i : Nat) :
+    (Model.substr s from_ len)[i]? = if i < len then s[from_ + i]? else none := by
+  unfold Model.substr
+  rw [List.getElem?_take, List.getElem?_drop]
+
+/-- C11.3  …and in length (offsets and counts beyond the end are not errors) -/
+theorem substr_length (s : List Nat) (from_ len : Nat) :
+    (Model.substr s from_ len).length = min len (s.length - from_) := by
+  simp [Model.substr]
+
+example : Model.substr [233, 0x1F600, 97] 1 5 = [0x1F600, 97] ∧ Model.substr [233, 97] 3 1 = [] := by
+  decide
+
+/-- C11.4  `std.lstripChars`: the code (with its `is_empty` early returns) is the reference
+    definition, and the result is what remains after removing a prefix consisting of listed
+    characters only, and does not itself start with a listed character (so the removed prefix is
+    the maximal one) -/
+theorem lstrip_spec (s cs : List Nat) :
+    Model.lstrip s cs = Spec.lstrip s cs ∧
+    ∃ pre, s = pre ++ Model.lstrip s cs ∧ (∀ x ∈ pre, x ∈ cs) ∧
+      (∀ h, (Model.lstrip s cs).head? = some h → h ∉ cs) := by
+  refine ⟨lstrip_model_eq_spec s cs, ?_⟩
+  rw [lstrip_model_eq_spec]; unfold Spec.lstrip
+  obtain ⟨pre, e, h1, h2⟩ := dropWhile_decomp (fun c => cs.contains c) s
+  refine ⟨pre, e, ?_, ?_⟩
+  · intro x hx; simpa using h1 x hx
+  · intro h hh; simpa using h2 h hh
+
+/-- C11.4  `std.rstripChars`, mirrored -/
+theorem rstrip_spec (s cs : List Nat) :
+    Model.rstrip s cs = Spec.rstrip s cs ∧
+    ∃ suf, s = Model.rstrip s cs ++ suf ∧ (∀ x ∈ suf, x ∈ cs) ∧
+      (∀ l, (Model.rstrip s cs).getLast? = some l → l ∉ cs) := by
+  refine ⟨rstrip_model_eq_spec s cs, ?_⟩
+  rw [rstrip_model_eq_spec]; unfold Spec.rstrip
+  obtain ⟨pre, e, h1, h2⟩ := dropWhile_decomp (fun c => cs.contains c) s.reverse
+  refine ⟨pre.reverse, ?_, ?_, ?_⟩
+  · have := congrArg List.reverse e
+    simpa using this
+  · intro x hx; simpa using h1 x (by simpa using hx)
+  · intro l hl
+    rw [List.getLast?_reverse] at hl
+    simpa using h2 l hl
+
+/-- C11.4  `std.stripChars` removes a run of listed characters from both ends and leaves a
+    string that neither starts nor ends with a listed character -/
+theorem strip_spec (s cs : List Nat) :
+    Model.strip s cs = Spec.strip s cs ∧
+    ∃ pre suf, s = pre ++ Model.strip s cs ++ suf ∧ (∀ x ∈ pre, x ∈ cs) ∧ (∀ x ∈ suf, x ∈ cs) ∧
+      (∀ h, (Model.strip s cs).head? = some h → h ∉ cs) ∧
+      (∀ l, (Model.strip s cs).getLast? = some l → l ∉ cs) := by
+  refine ⟨strip_model_eq_spec s cs, ?_⟩
+  rw [strip_model_eq_spec]; unfold Spec.strip
+  obtain ⟨_, pre, e1, hpre, hhead⟩ := lstrip_spec s cs
+  obtain ⟨_, suf, e2, hsuf, hlast⟩ := rstrip_spec (Spec.lstrip s cs) cs
+  rw [lstrip_model_eq_spec] at e1 hhead
+  rw [rstrip_model_eq_spec] at e2 hlast
+  refine ⟨pre, suf, ?_, hpre, hsuf, ?_, hlast⟩
+  · rw [List.append_assoc, ← e2, ← e1]
+  · intro h hh
+    apply hhead h
+    rw [e2]
+    cases hr : Spec.rstrip (Spec.lstrip s cs) cs with
+    | nil => rw [hr] at hh; simp at hh
+    | cons a r => rw [hr] at hh; simpa using hh
+
+/-- stripping "é" and "," from ",é a,b é," leaves " a,b " (inner occurrences stay) -/
+example : Model.strip [44, 233, 32, 97, 44, 98, 32, 233, 44] [233, 44] = [32, 97, 44, 98, 32] := by decide
+
+/-- C11.5  the `checked_sub` cascade of `parse_nat::<BASE>` accepts exactly the digits of the base
+    and gives them their value -/
+theorem digitOf_spec (base c : Nat) (hb : base = 8 ∨ base = 10 ∨ base = 16) :
+    Spec.digitVal base c =
+      if Model.digitOf base c < base then some (Model.digitOf base c) else none :=
+  digitOf_eq base c hb
+
+/-- C11.5  `std.parseOctal/parseInt/parseHex`: when every character is a digit of the base and the
+    positional value Σ dᵢ·baseⁱ is below 2^53, the f64 fold returns exactly that value -/
+theorem parseNat_spec (base : Nat) (hb : base = 8 ∨ base = 10 ∨ base = 16) (s : List Nat) (v : Nat)
+    (h : Spec.parseNat base s = some v) (hv : v < 2 ^ 53) : Model.parseNat base s = some v := by
+  unfold Spec.parseNat at h; unfold Model.parseNat
+  split at h
+  · simp at h
+  · rename_i hne
+    rw [if_neg hne]
+    exact parseNatGo_exact base hb s 0 v h hv
+
+/-- C11.5  …and it is an error exactly for the empty string and for strings containing a character
+    that is not a digit of the base -/
+theorem parseNat_reject_iff (base : Nat) (hb : base = 8 ∨ base = 10 ∨ base = 16) (s : List Nat) :
+    Model.parseNat base s = none ↔ s = [] ∨ ∃ c ∈ s, Spec.digitVal base c = none := by
+  unfold Model.parseNat
+  by_cases hs : s = []
+  · simp [hs]
+  · simp [hs, parseNatGo_none_iff base hb]
+
+/-- C11.5  no character outside ASCII — fullwidth or Arabic-Indic digits included — and none of
+    `:;<=>?@` is a digit -/
+theorem non_digit_rejected (base c : Nat) (hb : base = 8 ∨ base = 10 ∨ base = 16)
+    (hc : 128 ≤ c ∨ (58 ≤ c ∧ c ≤ 64)) (s t : List Nat) : Model.parseNat base (s ++ c :: t) = none := by
+  rw [parseNat_reject_iff base hb]
+  refine Or.inr ⟨c, by simp, ?_⟩
+  unfold Spec.digitVal
+  rcases hb with rfl | rfl | rfl <;> (repeat' split) <;> first | rfl | (exfalso; omega)
+
+/-- C11.5  `std.parseInt` with an optional leading minus sign -/
+theorem parseInt_spec (s : List Nat) (v : Int) (h : Spec.parseInt s = some v) (hv : v.natAbs < 2 ^ 53) :
+    Model.parseInt s = some v := by
+  unfold Spec.parseInt at h; unfold Model.parseInt
+  split at h
+  · rename_i r
+    cases hn : Spec.parseNat 10 r with
+    | none => simp [hn, Spec.negOf] at h
+    | some n =>
+      simp only [hn, Spec.negOf, Option.some.injEq] at h
+      subst h
+      have hn' := parseNat_spec 10 (by simp) r n hn (by simpa using hv)
+      unfold Model.parseNat at hn'
+      split at hn'
+      · simp at hn'
+      · rename_i hne
+        simp [hne, hn', Spec.negOf]
+  · rename_i hnot
+    cases hn : Spec.parseNat 10 s with
+    | none => simp [hn, Spec.posOf] at h
+    | some n =>
+      simp only [hn, Spec.posOf, Option.some.injEq] at h
+      subst h
+      have hn' := parseNat_spec 10 (by simp) s n hn (by simpa using hv)
+      unfold Model.parseNat at hn'
+      split at hn'
+      · simp at hn'
+      · rename_i hne
+        simp [hne, hn', Spec.posOf]
+
+example : Spec.parseNat 16 [102, 70, 48, 57] = some 0xFF09 ∧ Model.parseNat 16 [102, 70, 48, 57] = some 0xFF09 := by
+  decide
+example : Model.parseNat 16 [58] = none ∧ Model.parseNat 10 [0xFF11] = none ∧ Model.parseNat 8 [56] = none := by
+  decide
+
+/-- C11.6  `std.codepoint(std.char(n)) == n` for every scalar value -/
+theorem char_codepoint_inverse (n : Nat) (h : isScalar n = true) :
+    (Model.char n).bind Model.codepoint = some n := by
+  rw [char_scalar n h]; simp [Model.codepoint]
+
+/-- C11.6  `std.char(std.codepoint(s)) == s` for every one-character string -/
+theorem codepoint_char_inverse (c : Nat) (h : isScalar c = true) :
+    Model.codepoint [c] = some c ∧ Model.char (Int.ofNat c) = some [c] :=
+  ⟨rfl, char_scalar c h⟩
+
+/-- C11.6  `std.char` fails exactly on negatives, surrogates and values above U+10FFFF -/
+theorem char_err_iff (n : Int) :
+    Model.char n = none ↔ n < 0 ∨ (0xD800 ≤ n ∧ n ≤ 0xDFFF) ∨ 0x10FFFF < n := by
+  unfold Model.char isScalar
+  by_cases h0 : 0 ≤ n ∧ n < 4294967296
+  · simp only [h0, and_self, if_true]
+    split
+    · rename_i hs
+      simp only [Bool.or_eq_true, Bool.and_eq_true, decide_eq_true_eq] at hs
+      simp; omega
+    · rename_i hs
+      simp only [Bool.or_eq_true, Bool.and_eq_true, decide_eq_true_eq] at hs
+      simp; omega
+  · simp only [h0, if_false, true_iff]; omega
+
+/-- C11.7  `std.asciiUpper` maps UTF-8 bytes; the result is the string with exactly the code
+    points a..z replaced, everything else (in particular all non-ASCII text) untouched -/
+theorem asciiUpper_spec (s : List Nat) (hs : AllScalar s) :
+    dec (Model.asciiUpperBytes s) = some (Spec.asciiUpper s) := by
+  unfold Model.asciiUpperBytes Spec.asciiUpper
+  rw [map_upB_enc]
+  apply utf8_roundtrip
+  intro c hc
+  simp only [List.mem_map] at hc
+  obtain ⟨d, hd, rfl⟩ := hc
+  exact upCp_scalar (hs d hd)
+
+theorem asciiLower_spec (s : List Nat) (hs : AllScalar s) :
+    dec (Model.asciiLowerBytes s) = some (Spec.asciiLower s) := by
+  unfold Model.asciiLowerBytes Spec.asciiLower
+  rw [map_lowB_enc]
+  apply utf8_roundtrip
+  intro c hc
+  simp only [List.mem_map] at hc
+  obtain ⟨d, hd, rfl⟩ := hc
+  exact lowCp_scalar (hs d hd)
+
+/-- C11.7  only ASCII letters are touched, and length in code points is preserved -/
+theorem upper_lower_ascii_only (s : List Nat) (i : Nat) :
+    (Spec.asciiUpper s).length = s.length ∧ (Spec.asciiLower s).length = s.length ∧
+    (∀ c, s[i]? = some c → ¬ (97 ≤ c ∧ c ≤ 122) → (Spec.asciiUpper s)[i]? = some c) ∧
+    (∀ c, s[i]? = some c → ¬ (65 ≤ c ∧ c ≤ 90) → (Spec.asciiLower s)[i]? = some c) := by
+  refine ⟨by simp [Spec.asciiUpper], by simp [Spec.asciiLower], ?_, ?_⟩
+  · intro c hc hn
+    simp [Spec.asciiUpper, List.getElem?_map, hc, Spec.upCp, hn]
+  · intro c hc hn
+    simp [Spec.asciiLower, List.getElem?_map, hc, Spec.lowCp, hn]
+
+/-- C11.7  `std.equalsIgnoreCase` (`eq_ignore_ascii_case` on bytes) is equality of the ASCII
+    lower-cased code-point strings -/
+theorem equalsIgnoreCase_spec (a b : List Nat) :
+    Model.equalsIgnoreCase a b = Spec.equalsIgnoreCase a b := by
+  unfold Model.equalsIgnoreCase Spec.equalsIgnoreCase Spec.asciiLower
+  rw [map_lowB_enc, map_lowB_enc, Bool.eq_iff_iff, beq_iff_eq, beq_iff_eq]
+  exact ⟨enc_injective, fun h => by rw [h]⟩
+
+example : dec (Model.asciiUpperBytes [97, 233, 122, 0x17F]) = some [65, 233, 90, 0x17F] := by decide
+example : Model.equalsIgnoreCase [107] [0x212A] = false ∧ Model.equalsIgnoreCase [75, 233] [107, 233] = true := by
+  decide
+
+/-- C11.8  `std.base64DecodeBytes(std.base64(b)) == b` for every byte array (RFC 4648 §4) -/
+theorem base64_roundtrip (bs : List Nat) (h : ∀ b ∈ bs, b < 256) :
+    Spec.b64Dec (Spec.b64Enc bs) = some bs :=
+  b64_roundtrip bs h
+
+/-- C11.8  `std.base64Decode(std.base64(s)) == s` for every string -/
+theorem base64_string_roundtrip (s : List Nat) (hs : AllScalar s) (hb : ∀ b ∈ enc s, b < 256) :
+    (Spec.b64Dec (Spec.b64Enc (enc s))).bind dec = some s := by
+  rw [base64_roundtrip _ hb]; exact utf8_roundtrip s hs
+
+example : Spec.b64Enc (enc [233]) = [119, 54, 107, 61] ∧ Spec.b64Dec [119, 54, 107, 61] = some [0xC3, 0xA9] ∧
+    Spec.b64Dec [119, 54, 108, 61] = none := by decide
+
+/-- C11.9  the debug format used by `std.trace` for non-string values leaves strings of at most
+    256 bytes alone and otherwise keeps a prefix and a suffix of WHOLE characters of at most 128
+    bytes each — it never cuts inside a multi-byte character -/
+theorem debugTrunc_spec (s : List Nat) :
+    ((enc s).length ≤ 256 ∧ Model.debugTrunc s = s) ∨
+    ∃ pre suf, pre <+: s ∧ suf <:+ s ∧ (enc pre).length ≤ 128 ∧ (enc suf.reverse).length ≤ 128 ∧
+      Model.debugTrunc s = pre ++ [46, 46] ++ suf := by
+  unfold Model.debugTrunc
+  split
+  · refine Or.inr ⟨Model.takeBytes 128 s, (Model.takeBytes 128 s.reverse).reverse,
+      takeBytes_prefix _ _, ?_, takeBytes_len _ _, ?_, rfl⟩
+    · have := takeBytes_prefix 128 s.reverse
+      simpa using List.reverse_suffix.mpr this
+    · simpa using takeBytes_len 128 s.reverse
+  · exact Or.inl ⟨by omega, rfl⟩
+
+/-- C11.10 (reference definition of `std.split/splitLimit`)  joining the pieces with the separator
+    gives the string back, for every non-empty separator and every limit -/
+theorem split_join (s sep : List Nat) (lim : Option Nat) (hsep : sep ≠ []) :
+    List.intercalate sep (Spec.splitLimit s sep lim) = s := by
+  simpa [Spec.splitLimit] using splitGo_join sep hsep lim s []
+
+/-- C11.10  `std.splitLimit(s, c, n)` yields at most n+1 pieces -/
+theorem splitLimit_count (s sep : List Nat) (n : Nat) : (Spec.splitLimit s sep (some n)).length ≤ n + 1 :=
+  splitGo_count sep n s []
+
+/-- C11.10  `std.strReplace(s, from, from) == s` -/
+theorem strReplace_self (s from_ : List Nat) (h : from_ ≠ []) : Spec.strReplace s from_ from_ = s :=
+  split_join s from_ none h
+
+example : List.intercalate [44] (Spec.splitLimit [97, 44, 44, 98] [44] (some 1)) = [97, 44, 44, 98] :=
+  split_join _ _ _ (by simp)
+
+end JrsVerif.Str
